@@ -89,15 +89,16 @@ theorem linkStep_built (k : Nat) (hk : 0 < k) :
     · simp [builtCtx, e1]
     · simp [builtCtx, e1, e2, e3]
 
-theorem inheritFrom_built : ∀ (rest : List Level) (k : Nat), 0 < k → wf rest = true →
+theorem inheritFrom_built : ∀ (rest : List Level) (k : Nat), 0 < k → wf rest = true → compiles rest = true →
     inheritFrom rest k (builtHeap k) (k - 1) =
       .ok (builtHeap (k + rest.length), (k + rest.length - 1, k + rest.length - 1)) := by
   intro rest
   induction rest with
   | nil => intro k _ h; simp [wf] at h
   | cons t r ih =>
-    intro k hk hwf
-    simp only [inheritFrom, linkStep_built k hk]
+    intro k hk hwf hc
+    simp only [compiles, List.all_cons, Bool.and_eq_true] at hc
+    simp only [inheritFrom, hc.1, Bool.not_true, Bool.false_eq_true, if_false, linkStep_built k hk]
     cases r with
     | nil =>
       simp only [wf, Bool.not_eq_true'] at hwf
@@ -105,7 +106,7 @@ theorem inheritFrom_built : ∀ (rest : List Level) (k : Nat), 0 < k → wf rest
     | cons t' r' =>
       simp only [wf, Bool.and_eq_true] at hwf
       simp only [hwf.1, if_true]
-      have := ih (k + 1) (by omega) hwf.2
+      have := ih (k + 1) (by omega) hwf.2 (by simpa [compiles] using hc.2)
       simp only [Nat.add_sub_cancel] at this
       rw [this]
       simp only [List.length_cons]
@@ -114,11 +115,12 @@ theorem inheritFrom_built : ∀ (rest : List Level) (k : Nat), 0 < k → wf rest
 theorem heap0_eq : heap0 = builtHeap 1 := by decide
 
 /-- `chain_built` + `render_starts_at_base`, as an equation -/
-theorem populateSelf_built (c : List Level) (hwf : wf c = true) :
+theorem populateSelf_built (c : List Level) (hwf : wf c = true) (hc : compiles c = true) :
     populateSelf c = .ok (builtHeap c.length, (c.length - 1, c.length - 1)) := by
   cases c with
   | nil => simp [wf] at hwf
   | cons t r =>
+    simp only [compiles, List.all_cons, Bool.and_eq_true] at hc
     cases r with
     | nil =>
       simp only [wf, Bool.not_eq_true'] at hwf
@@ -126,11 +128,24 @@ theorem populateSelf_built (c : List Level) (hwf : wf c = true) :
     | cons t' r' =>
       simp only [wf, Bool.and_eq_true] at hwf
       simp only [populateSelf, hwf.1, if_true, heap0_eq]
-      have := inheritFrom_built (t' :: r') 1 (by omega) (by simp [hwf.2])
+      have := inheritFrom_built (t' :: r') 1 (by omega) (by simp [hwf.2]) (by simpa [compiles] using hc.2)
       simp only [Nat.sub_self] at this
       rw [this]
       simp only [List.length_cons]
       congr 3 <;> omega
+
+/-- a render of a well-formed chain whose templates all compile: the inherit phase, then the callable it returns -/
+theorem render_built (c : List Level) (hwf : wf c = true) (hc : compiles c = true) (fuel : Nat)
+    (data : List (Name × Val)) :
+    render c fuel data =
+      invoke c (exec c (heapDispatch c (builtHeap c.length)) fuel) (.member (c.length - 1) (c.length - 1))
+        bodyName [] data := by
+  have hp := populateSelf_built c hwf hc
+  cases c with
+  | nil => simp [wf] at hwf
+  | cons t r =>
+    simp only [compiles, List.all_cons, Bool.and_eq_true] at hc
+    simp only [render, hc.1, Bool.not_true, Bool.false_eq_true, if_false, hp]
 
 /-! ### attribute access on the built heap -/
 
